@@ -24,6 +24,17 @@ Vals == <<
 
 Atom(f, x) == [f |-> f, x |-> x]
 
+(* compositions and containers over small fixed sub-schemas, usable as keywords of one level *)
+(* (so that two compositions, or a composition and any other keyword, meet in one schema)    *)
+TInt == [type |-> "integer"]
+TStr == [type |-> "string"]
+CombAtoms ==
+   {Atom("oneOf", <<TInt, TStr>>), Atom("oneOf", <<[type |-> "number"], [minimum |-> 4]>>),
+    Atom("anyOf", <<TInt, TStr>>), Atom("anyOf", <<[minimum |-> 8], [minLength |-> 2]>>),
+    Atom("allOf", <<[type |-> "number"], [minimum |-> 4]>>), Atom("allOf", <<[nullable |-> TRUE]>>),
+    Atom("not", TStr), Atom("not", [enum |-> <<Num(4)>>]),
+    Atom("items", TInt), Atom("apSchema", TStr)}
+
 Atoms ==
    {Atom("type", t) : t \in {"boolean", "integer", "number", "string", "array", "object"}}
    \cup {Atom("nullable", TRUE), Atom("uniqueItems", TRUE), Atom("apFalse", TRUE),
@@ -37,6 +48,7 @@ Atoms ==
    \cup {Atom("minItems", n) : n \in {1, 2}} \cup {Atom("maxItems", n) : n \in {0, 1, 2}}
    \cup {Atom("minProperties", n) : n \in {1, 2}} \cup {Atom("maxProperties", n) : n \in {0, 1}}
    \cup {Atom("required", r) : r \in {<<"x">>, <<"x", "y">>}}
+   \cup CombAtoms
 
 (* keywords an outer (wrapping) level may add next to the wrapped schema *)
 OuterAtoms ==
@@ -54,6 +66,8 @@ CanAdd(s, a) ==
    /\ ~Has(s, a.f)
    /\ a.f = "exclusiveMinimum" => Has(s, "minimum")
    /\ a.f = "exclusiveMaximum" => Has(s, "maximum")
+   /\ a.f = "apFalse" => ~Has(s, "apSchema")      \* additionalProperties is one or the other
+   /\ a.f = "apSchema" => ~Has(s, "apFalse")
 
 With(s, a) == (a.f :> a.x) @@ s
 
